@@ -14,7 +14,9 @@ TB_COMMON = [KERNEL, 'axioms: propext, Classical.choice, Quot.sound only (audite
 # theorem registry: property -> [(module, [theorem names])]
 THEOREMS = {
     'C11': [('ChessVerif.Props.C11', ['Chess.Props.C11_slider', 'Chess.Props.C11_leapers', 'Chess.Props.C11_lines', 'Chess.Props.C11_pawn'])],
-    'C01': [('ChessVerif.Props.C01', ['Chess.Props.C01_leaper_geometry_partial', 'Chess.Props.C01_slider_geometry_partial', 'Chess.Props.C01_castling_paths_partial',
+    'C01': [('ChessVerif.Props.C01', ['Chess.Props.C01_king_moves_exact', 'Chess.Props.C01_castling_exact', 'Chess.Props.C01_castling_emitted',
+                                     'Chess.Props.C01_forbidden_squares', 'Chess.Props.C01_forbidden_nocheck', 'Chess.Props.C01_in_check_test',
+                                     'Chess.Props.C01_leaper_geometry_partial', 'Chess.Props.C01_slider_geometry_partial', 'Chess.Props.C01_castling_paths_partial',
                                      'Chess.Props.C01_king_moves_partial', 'Chess.Props.C01_pins_partial'])],
     'C02': [('ChessVerif.Props.C02', ['Chess.Props.C02_full', 'Chess.Props.C02_replay_legal', 'Chess.Props.C02_step', 'Chess.Props.C02_replay', 'Chess.Props.C02_castling_clock']),
             ('ChessVerif.Lemmas.OKDec', ['Chess.specHypothesesHold_sound'])],
@@ -33,9 +35,9 @@ THEOREMS = {
                                      'Chess.Props.C10_capacities', 'Chess.Props.C10_piece_lists'])],
     'C12': [('ChessVerif.Props.C12', ['Chess.Props.C12_kpk', 'Chess.Props.C12_mirror', 'Chess.Props.C12_certificate', 'Chess.Props.C12_index', 'Chess.Props.C12_normalize'])],
     'C13': [('ChessVerif.Props.C13', ['Chess.Props.C13_geometry', 'Chess.Props.C13_normSq_mirror', 'Chess.Props.C13_combine_neg', 'Chess.Props.C13_phase_symm'])],
-    'C14': [('ChessVerif.Props.C14', ['Chess.Props.C14_cache_transparent', 'Chess.Props.C14_cap_partial'])],
+    'C14': [('ChessVerif.Props.C14', ['Chess.Props.C14_cache_transparent', 'Chess.Props.C14_bounded', 'Chess.Props.C14_constants', 'Chess.Props.C14_cap_partial'])],
     'C15': [('ChessVerif.Props.C15', ['Chess.Props.C15_capture_quiet_full', 'Chess.Props.C15_quiet', 'Chess.Props.C15_castling', 'Chess.Props.C15_capture_rules'])],
-    'C17': [('ChessVerif.Props.C17', ['Chess.Props.C17_matcher_piece', 'Chess.Props.C17_matcher_pawn', 'Chess.Props.C17_castling'])],
+    'C17': [('ChessVerif.Props.C17', ['Chess.Props.C17_roundtrip', 'Chess.Props.C17_matcher_piece', 'Chess.Props.C17_matcher_pawn', 'Chess.Props.C17_castling'])],
     'C18': [('ChessVerif.Props.C18', ['Chess.Props.C18_tables', 'Chess.Props.C18_anchors', 'Chess.Props.C18_pieces', 'Chess.Props.C18_key_noep', 'Chess.Props.C18_key'])],
     'C16': [('ChessVerif.Props.C16', ['Chess.Props.C16_encoding', 'Chess.Props.C16_encoding_move', 'Chess.Props.C16_castle_code', 'Chess.Props.C16_moveinfo',
                                      'Chess.Props.C16_uci_text', 'Chess.Props.C16_uci_plain', 'Chess.Props.C16_uci_castle'])],
